@@ -1,0 +1,16 @@
+//go:build !verif
+
+// Empty counterparts of the verification hooks in verif_on.go. They are
+// trivially inlinable, so the default build behaves exactly as without them.
+
+package kcp
+
+import "time"
+
+func verifTimerNow(t time.Time) time.Time { return t }
+
+func verifPoolGet(*bufferPool) ([]byte, bool) { return nil, false }
+
+func verifPoolPut(*bufferPool, []byte) bool { return false }
+
+func verifYield(string) {}
